@@ -2,7 +2,13 @@
 //
 // Part (a): message sets x an RFC 6265 client, 5 requests per history, on the wire.
 // Part (b): hostile cookie values (all short byte strings + a MessagePack grammar product)
-//           against a strict reference decoder; allocation budget; process death in a child.
+//
+//	against a strict reference decoder; allocation budget; process death in a child.
+//
+// Part (c): the round trip under varied scenarios (transport seam, call programs on the Redirect, Config /
+//
+//	custom ctx, where the target is registered, how the redirect is issued, what the consuming
+//	handler does, what else the client holds), see partc.go.
 package main
 
 import (
@@ -16,7 +22,7 @@ import (
 
 var (
 	flagSize = flag.Int("sizecase", -1, "run one hostile-size case in this process (internal)")
-	flagPart = flag.String("part", "ab", "which parts to run (debug): a, b, ab")
+	flagPart = flag.String("part", "abc", "which parts to run (debug): any of a, b, c")
 )
 
 func main() {
@@ -48,6 +54,10 @@ func main() {
 	if has(*flagPart, 'b') {
 		boundsB = runPartB(r)
 	}
+	boundsC := map[string]any{}
+	if has(*flagPart, 'c') {
+		boundsC = runPartC(r)
+	}
 	c := r.P.Counters
 	ev := core.Evidence{
 		Level:       "exploration",
@@ -55,15 +65,19 @@ func main() {
 		MinOutcomes: 4,
 		Coverage: map[string]any{
 			"evaluations":         c["evaluations"],
-			"distinct_nontrivial": c["a_nontrivial"] + c["b_nontrivial"],
+			"distinct_nontrivial": c["a_nontrivial"] + c["b_nontrivial"] + c["c_nontrivial"],
 			"rule": fmt.Sprintf("(a) every message set of the listed families (<=2 flash messages x <=2 old-input pairs, keys/values over the 11-string hostile alphabet, levels {0,1,255}) "+
 				"is driven through 5 wire requests (redirect; RFC 6265 mini-client replays Set-Cookie; second replay; cookie-less client; cookie-less request mentioning the name); "+
 				"non-trivial = at least one message attached. (b) every byte string of length <=%d and every member of the MessagePack grammar product "+
 				"(array header forms x announced counts x element sequences) is injected as fiber_flash value twice (wire Cookie header; request-header object after a wire parse), "+
 				"each time right after a request with a rich valid cookie on the same app; non-trivial = the value starts with a complete array header (the decoder gets past the header). "+
-				"Each case is compared with an independent strict reference decoder; allocation per request is measured with MemStats.TotalAlloc in single-threaded child processes.",
+				"Each case is compared with an independent strict reference decoder; allocation per request is measured with MemStats.TotalAlloc in single-threaded child processes. "+
+				"(c) every member of three families — every call program (sequences of With / With+level / WithInput, level and length sweeps, 3..41 messages) x 2 seams x 4 configurations x 4 registrations of the target; "+
+				"one scenario dimension at a time (issue kind x status, consuming-handler behaviour, other cookies held by the client, Cookie header-name spelling) x programs x seams x cfg x shape; "+
+				"a full cross of core values x 4 programs — is driven through 5 requests (redirect; the RFC 6265 client follows the Location; follow-up or chained redirect; same client again; cookie-less client) "+
+				"over the wire and over a lossless object seam; non-trivial = at least one call on the Redirect.",
 				c["b_maxlen"]),
-			"bounds": map[string]any{"part_a_families": boundsA, "part_b": boundsB},
+			"bounds": map[string]any{"part_a_families": boundsA, "part_b": boundsB, "part_c": boundsC},
 		},
 		Assumptions: []string{
 			"the client model is RFC 6265 §5 (no RFC 6265bis control-character rejection); it uses the real clock only to decide whether an Expires/Max-Age lies in the past",
@@ -74,6 +88,10 @@ func main() {
 			"a valid encoding followed by extra bytes counts as not well-formed (reported under its own signature class=trailing-bytes)",
 			"fiber's WithInput ranges over a Go map, so the order of two old-input pairs inside the cookie varies between runs: per-signature counts of part (a) may differ by a fraction of a percent, the signature set does not",
 			"the request-header seam (cookie set on the parsed request object) reaches the decoder with bytes fasthttp's wire parser refuses; it is what app.Handler() callers and redirect_test use",
+			"part (c) object seam: the RFC 6265 client model exchanges Set-Cookie / Cookie field values with the response / request objects (request head parsed from its wire form with placeholder cookie values, real values set on the object). Delivery over this lossless transport is a necessary condition of the statement's delivery over a real exchange; it is the only way old input (level 0 = NUL in the raw-MessagePack cookie) is judged positively. Sets whose encoding holds ';', CR or LF are not judged there (unspecified_skipped)",
+			"part (c) wire seam: message sets that cannot travel for the known raw-MessagePack reason keep the part (a) signatures (a/not-delivered input=...); sets outside the five known input classes whose level / length / count byte is a control byte, DEL or ';', and cookies above 2048 bytes, are not judged over the wire (unspecified_skipped; the object seam judges them)",
+			"part (c): the old input a request 'has' is what fiber's binder returns for it (query for GET, form for urlencoded and multipart bodies); a request never carries both; the client follows 301/302/303 with GET and repeats method and entity after 307/308 (RFC 9110 15.4)",
+			"part (c): a redirect call that fails (Back without Referer and fallback) attaches nothing the statement speaks of: only 'the next request sees none' is checked; Route with an unknown name answers 3xx with an empty Location: the client's own next request to the target is taken as the one carrying the issued cookie",
 		},
 	}
 	pprof.StopCPUProfile()
